@@ -42,7 +42,7 @@ BOUNDS = {
     "thorough": "0..5 rows, histories <=3 (reduced sweep for the third), parsing lemma with names <= 4 chars",
 }
 OUTSIDE = "tables with more than 5 rows; _append_row/_update (private, not in the property's list); names containing the separators"
-REQUIRED_CLASSES = ["sweep", "keyerror_expected", "write_checked", "unique_labels", "index_cell_update", "lemma_unsat"]
+REQUIRED_CLASSES = ["sweep", "keyerror_expected", "write_checked", "unique_labels", "index_cell_update", "index_column_readded", "lemma_unsat"]
 PROFILE_CASES = 6
 TASKS_PER_CHILD = 200
 ALPHA = ["a", "b", "c"]
@@ -207,6 +207,10 @@ def mutations(t):
         out.append(("cell_name", nm, "d"))
         out.append(("cell_tuple", (nm, -1), "b"))
         out.append(("cell_name", f"{nm}::0>>0", "c"))
+    # the index column is removed and added again (as a new column) with other names
+    out.append(("delidx_add", (ALPHA * 2)[1:n + 1]))
+    out.append(("popidx_add", list(reversed(names))))
+    out.append(("delidx_attr", (["d", "a", "a", "b", "d"])[:n]))
     out.append(("newcol",))
     out.append(("delcol",))
     out.append(("popcol",))
@@ -231,6 +235,21 @@ def apply(ex, t, mu, hist):
         t["name", mu[1]] = mu[2]
         note(ex, "index_cell_update")
         hist.append(f"t['name', {mu[1]!r}] = {mu[2]!r}")
+    elif k == "delidx_add":
+        del t["name"]
+        t["name"] = np.array(mu[1], dtype=object)
+        note(ex, "index_column_readded")
+        hist.append(f"del t['name']; t['name'] = {mu[1]}")
+    elif k == "popidx_add":
+        t.pop("name")
+        t["name"] = np.array(mu[1], dtype=object)
+        note(ex, "index_column_readded")
+        hist.append(f"t.pop('name'); t['name'] = {mu[1]}")
+    elif k == "delidx_attr":
+        del t["name"]
+        t.name = np.array(mu[1], dtype=object)
+        note(ex, "index_column_readded")
+        hist.append(f"del t['name']; t.name = {mu[1]}")
     elif k == "newcol":
         t["z"] = np.arange(n)
         hist.append("t['z'] = arange(n)")
@@ -330,13 +349,13 @@ def cases(tier):
                 continue
             K = 2 if (tier != "quick" or n <= 3) else 1
             if K == 2:
-                for first in range(12 + 8 * n + 4 * len(seen)):
+                for first in range(16 + 8 * n + 4 * len(seen)):
                     out.append({"build": "pure", "pattern": list(pat), "K": K, "first": first})
             else:
                 out.append({"build": "pure", "pattern": list(pat), "K": K})
     out.append({"build": "pure", "pattern": ["x", "a", "x", "a"], "K": 1})
     for pat in (["a"], ["a", "b"], ["a", "a", "b"], ["a", "b", "c"], ["b", "a", "b", "a"]):
-        for first in range(12 + 8 * len(pat) + 4 * len(set(pat))):
+        for first in range(16 + 8 * len(pat) + 4 * len(set(pat))):
             out.append({"build": "pure", "pattern": pat, "K": 2 if len(pat) <= 2 else 1, "first": first, "fixed_width": True})
     for pat in (["a"], ["a", "b"], ["a", "b", "a"], ["b", "b"]):
         for un in (["a"], ["c", "a"], ["b", "b", "a"], "*2"):
